@@ -28,6 +28,17 @@ Check C10_set_determined_by_members :
   forall (A K : Type) (key : A -> K) (c : K -> K -> comparison) (l1 l2 : list A),
     cmp_laws c -> strict_sorted key c l1 -> strict_sorted key c l2 ->
     (forall z, In z l1 <-> In z l2) -> l1 = l2.
+Check C10_setops_number_keys :
+  forall (k : option fn) (a b : list val),
+    num_keys k a -> num_keys k b ->
+    strict_sorted (keyd k) cz a -> strict_sorted (keyd k) cz b ->
+    union_impl (keyfn k) cmp_val a b = union_spec (keyfn k) cmp_val a b /\
+    inter_impl (keyfn k) cmp_val a b = inter_spec (keyfn k) cmp_val a b /\
+    diff_impl (keyfn k) cmp_val a b = diff_spec (keyfn k) cmp_val a b /\
+    (exists u, union_impl (keyfn k) cmp_val a b = Some u /\ strict_sorted (keyd k) cz u /\
+               forall z, In z u <-> In z a \/ (In z b /\ key_in_b (keyd k) cz z a = false)) /\
+    inter_impl (keyfn k) cmp_val a b = Some (filter (fun x => key_in_b (keyd k) cz x b) a) /\
+    diff_impl (keyfn k) cmp_val a b = Some (filter (fun x => negb (key_in_b (keyd k) cz x b)) a).
 Check C10_setmember_refines :
   forall (A K : Type) (keyf : A -> option K) (cmp : K -> K -> option comparison)
          (key : A -> K) (c : K -> K -> comparison) (x : A) (arr : list A),
@@ -59,6 +70,10 @@ Check C10_sort_fast_paths :
     all_comparable ks = true /\
     sort_keyed_impl l ks
     = Some (map fst (isort (fun p q : val * val => leb_val (snd p) (snd q)) (combine l ks))).
+Check C10_sort_refines_classified :
+  forall k l,
+    (forall ks, mapM (keyfn k) l = Some ks -> get_sort_type STUnknown ks <> Some STUnspec) ->
+    sort_impl k l = sort_spec k l /\ set_impl k l = set_spec k l.
 Check C10_sort_fallible_path :
   forall (A : Type) (cmpf : A -> A -> option comparison) (leb : A -> A -> bool) (l : list A),
     (forall x y, In x l -> In y l -> exists c, cmpf x y = Some c /\ leb x y = leb_cmp c) ->
@@ -129,3 +144,7 @@ Check eq_refl : spec_call (CMinArray (VArr [VStr [98%N]; VStr [97%N]; VStr [97%N
                 = Some (OVal (VStr [98%N])).
 Check eq_refl : judge (CSetUnion (VArr [VNum 3; VNum 1]) (VArr []) None) = JModel.
 Check eq_refl : judge (CSetUnion (VArr [VNum 1; VNum 3]) (VArr []) None) = JSpec.
+Check eq_refl : keyd (Some FLen) (VStr [97%N]) = VNum 1.
+Check eq_refl : keyd (Some FLen) VNull = VNull.
+Check eq_refl : cz (VNum 1) VNegZero = Gt.
+Check eq_refl : num_keys None [VNum 1] = Forall (fun x => exists v, keyfn None x = Some v /\ is_num v = true) [VNum 1].
